@@ -334,6 +334,14 @@ structure Facts where
       after `StartTreasureGuard`; `no`: the decision to write is taken from a test made before the guard, i.e. the
       conditional Sets are bodies of shape `readBeforeAcquire` -/
   setTestsExistenceUnderGuard : Tri
+  /-- gateway Set / Uint32SlicePush / Uint32SliceDelete take object and guard from the re-checking helper -/
+  gatewayWritesRecheckObject : Tri
+  /-- ShiftByKeys takes its copy in the guard session of the delete itself (`no`: it copies in one session and deletes
+      in another — the value it hands out was read outside the session that removes the record) -/
+  shiftByKeysOneSession : Tri
+  /-- DeleteTreasure answers from what deleteHandler found under the guard (`no`: from the existence test it made
+      before taking the guard) -/
+  deleteTrustsHandlerResult : Tri
   deriving Repr
 
 def shapeOf : ShapeFact → Shape
@@ -345,8 +353,9 @@ def shapeOf : ShapeFact → Shape
 def cfgOf (f : Facts) : Cfg :=
   { guard := { resetsIdOnEmpty := f.resetsIdOnEmpty.isYes },
     releasesWhenImmediate := !f.releasesGuardWhenImmediate.isNo,
-    shape := if f.setTestsExistenceUnderGuard.isNo then .readBeforeAcquire else shapeOf f.bodyShape,
-    stale := { recheck := f.rechecksObjectUnderGuard.isYes } }
+    shape := if f.setTestsExistenceUnderGuard.isNo || f.shiftByKeysOneSession.isNo || f.deleteTrustsHandlerResult.isNo
+             then .readBeforeAcquire else shapeOf f.bodyShape,
+    stale := { recheck := f.rechecksObjectUnderGuard.isYes && f.gatewayWritesRecheckObject.isYes } }
 
 def findings (c : Cfg) : List String :=
   (match c.shape with
@@ -363,6 +372,9 @@ def classify (f : Facts) : Verdict :=
   if f.createSingleFlight ≠ .yes then .undetermined "create.singleFlight: no theorem without the in-flight tracker" else
   if f.rechecksObjectUnderGuard = .unknown then .undetermined "increment.rechecksObjectUnderGuard" else
   if f.setTestsExistenceUnderGuard = .unknown then .undetermined "set.testsExistenceUnderGuard" else
+  if f.gatewayWritesRecheckObject = .unknown then .undetermined "gateway.writesRecheckObject" else
+  if f.shiftByKeysOneSession = .unknown then .undetermined "shiftByKeys.oneSession" else
+  if f.deleteTrustsHandlerResult = .unknown then .undetermined "delete.trustsHandlerResult" else
   match findings (cfgOf f) with
   | [] => if f.resetsIdOnEmpty = .no ∧ (cfgOf f).shape = .guarded then .holds
           else .undetermined "no theorem covers this combination (guard ID reuse without the in-save release / response read after Save without it)"
@@ -424,11 +436,14 @@ theorem classify_sound (f : Facts) : (classify f).Sound (Holds (cfgOf f)) (Holds
   split; · trivial
   split; · trivial
   split; · trivial
+  split; · trivial
+  split; · trivial
+  split; · trivial
   split
   · rename_i hf
     split
     · rename_i hres0
-      rename_i hu1 hu2 hu3 hu4 hu5 hu6
+      rename_i hu1 hu2 hu3 hu4 hu5 hu6 hu7 hu8 hu9
       obtain ⟨hres, hsh⟩ := hres0
       -- no findings: guarded bodies, re-check present; IDs never reused
       have hre : (cfgOf f).stale.recheck = true := by
